@@ -746,7 +746,7 @@ func (fr *Frame) closeLoop(head *ssa.BasicBlock, ord int, st *State, from *ssa.B
 		for _, n := range sortedKeys(st.heaps) {
 			ft := st.heaps[n]
 			ht := ex.heap(lc.headSt, n, ft.Sort)
-			if ft.S == ht.S || lc.frame.whole[n] {
+			if ft.S == ht.S || lc.frame.whole[n] || newFieldHeap(n) {
 				continue
 			}
 			r := Term{"r!f", SRef}
